@@ -46,6 +46,7 @@ Inductive lexp :=
 | LConcat (a b : lexp)           (* a+b *)
 | LReverse (l : lexp)            (* l.reverse() *)
 | LForce (l : lexp)              (* l.eval() *)
+| LGuard (v : sexp) (l : lexp)   (* l.map(e->e+0%(e-v)): lazy; the closure fails (modulo by zero) on elements equal to v *)
 with zexp :=
 | ZS (e : sexp)
 | ZAdd (a b : zexp)
@@ -124,9 +125,23 @@ Definition append_op (cp : caps) (h : heap) (a : nat) (v : Z) : op :=
 Definition top_op (n : Z) (a : nat) : op := if (n <? 0)%Z then OSkip 0 a else OTop (Z.to_nat n) a.
 Definition sp_top (n : Z) (xs : list Z) : list Z := if (n <? 0)%Z then xs else firstn (Z.to_nat n) xs.
 
+(* consumers of a list whose iteration may FAIL (poison elements, see Heap/ListHeap.v).
+   List.Eval (size, [i], append, reverse, eval): `for v, err := range l.iterable(st) { if err != nil { return err } ...`
+   - the failure path returns BEFORE items / itemsPresent / iterable are written: a failing materialisation is a
+   step that leaves the heap exactly as it was (eval_guarded), whoever shares the object. *)
+Definition sum_ok (xs : list Z) : option Z := if poisoned xs then None else sum_list xs.
+Definition first_ok (xs : list Z) : option Z :=
+  match xs with [] => None | x :: _ => if is_poison x then None else Some x end.
+Definition pull (j : nat) (xs : list Z) : outcome := if poisoned (firstn j xs) then OErr else OList (firstn j xs).
+
 (* allocate: perform op, hand the id of the object it created to the continuation *)
 Definition alloc {R} (mk : heap -> op) (k : option nat -> script R) : script R :=
   Do (fun h => (step h (mk h), k (Some (nobjs h)))).
+
+(* the same for operations that start with List.Eval on object a: if materialising a fails, the operation
+   returns the error and the heap is untouched *)
+Definition alloc_eval {R} (a : nat) (mk : heap -> op) (k : option nat -> script R) : script R :=
+  Do (fun h => if poisoned (icontent h a) then (h, k None) else (step h (mk h), k (Some (nobjs h)))).
 
 (* compile to a script in continuation-passing style; the order of the steps is the order in which the
    generated Go closures run: receiver, then arguments, then the method; index before list *)
@@ -139,7 +154,7 @@ Fixpoint sc_l {R} (en : env) (e : lexp) (k : option nat -> script R) {struct e} 
   | LAppend l x =>
       sc_l en l (fun rl => match rl with None => k None | Some a =>
         sc_z en x (fun rx => match rx with None => k None | Some v =>
-          alloc (fun h => append_op (e_cp en) h a v) k end) end)
+          alloc_eval a (fun h => append_op (e_cp en) h a v) k end) end)
   | LMap kk l => sc_l en l (fun rl => match rl with None => k None | Some a => alloc (fun _ => OMap (ev_s en kk) a) k end)
   | LAccept kk l => sc_l en l (fun rl => match rl with None => k None | Some a => alloc (fun _ => OAccept (ev_s en kk) a) k end)
   | LTop n l => sc_l en l (fun rl => match rl with None => k None | Some a => alloc (fun _ => top_op (ev_s en n) a) k end)
@@ -148,9 +163,10 @@ Fixpoint sc_l {R} (en : env) (e : lexp) (k : option nat -> script R) {struct e} 
       sc_l en a (fun ra => match ra with None => k None | Some x =>
         sc_l en b (fun rb => match rb with None => k None | Some y => alloc (fun _ => OConcat x y) k end) end)
   | LReverse l => sc_l en l (fun rl => match rl with None => k None | Some a =>
-        alloc (fun h => OReverse a (c_eval (e_cp en) (length (icontent h a)))) k end)
+        alloc_eval a (fun h => OReverse a (c_eval (e_cp en) (length (icontent h a)))) k end)
   | LForce l => sc_l en l (fun rl => match rl with None => k None | Some a =>
-        Do (fun h => (step h (force_op (e_cp en) h a), k (Some a))) end)
+        Do (fun h => if poisoned (icontent h a) then (h, k None) else (step h (force_op (e_cp en) h a), k (Some a))) end)
+  | LGuard v l => sc_l en l (fun rl => match rl with None => k None | Some a => alloc (fun _ => OGuard (ev_s en v) a) k end)
   end
 with sc_z {R} (en : env) (e : zexp) (k : option Z -> script R) {struct e} : script R :=
   match e with
@@ -163,14 +179,16 @@ with sc_z {R} (en : env) (e : zexp) (k : option Z -> script R) {struct e} : scri
       sc_z en i (fun ri => match ri with None => k None | Some iv =>
         sc_l en l (fun rl => match rl with None => k None | Some a =>
           if (iv <? 0)%Z then k None                    (* AccessList: negative index, the list is not touched *)
-          else Do (fun h => let h1 := step h (force_op (e_cp en) h a) in       (* l.Size(): Eval *)
+          else Do (fun h => if poisoned (icontent h a) then (h, k None) else     (* l.Size(): Eval fails *)
+                            let h1 := step h (force_op (e_cp en) h a) in
                             (h1, k (nth_error (items_content h1 a) (Z.to_nat iv)))) end) end)
   | ZSize l => sc_l en l (fun rl => match rl with None => k None | Some a =>
-        Do (fun h => let h1 := step h (force_op (e_cp en) h a) in (h1, k (Some (Z.of_nat (length (items_content h1 a)))))) end)
+        Do (fun h => if poisoned (icontent h a) then (h, k None) else
+                     let h1 := step h (force_op (e_cp en) h a) in (h1, k (Some (Z.of_nat (length (items_content h1 a)))))) end)
   | ZSum l => sc_l en l (fun rl => match rl with None => k None | Some a =>
-        Do (fun h => (h, k (sum_list (icontent h a)))) end)                     (* iterates, writes nothing *)
+        Do (fun h => (h, k (sum_ok (icontent h a)))) end)                     (* iterates, writes nothing *)
   | ZFirst l => sc_l en l (fun rl => match rl with None => k None | Some a =>
-        Do (fun h => (h, k (hd_error (icontent h a)))) end)
+        Do (fun h => (h, k (first_ok (icontent h a)))) end)
   | ZThrow => k None
   | ZTry a b => sc_z en a (fun ra => match ra with Some v => k (Some v) | None => sc_z en b k end)
   | ZIfLt a b t e =>
@@ -189,7 +207,8 @@ Fixpoint sc_defs {R} (cp : caps) (ds : list def) (cs : list nat) (zs : list Z)
   | DS i :: r =>
       match nth_error cs i with
       | None => k None
-      | Some a => Do (fun h => let h1 := step h (force_op cp h a) in
+      | Some a => Do (fun h => if poisoned (icontent h a) then (h, k None) else
+                               let h1 := step h (force_op cp h a) in
                                (h1, sc_defs cp r cs (zs ++ [Z.of_nat (length (items_content h1 a))]) k))
       end
   end.
@@ -204,7 +223,7 @@ Definition sc_eval (cp : caps) (F : func) (args : list Z) (j : nat) : script out
   match f_body F with
   | BZ e => sc_z en e (fun r => Done (match r with None => OErr | Some v => OInt v end))
   | BL e => sc_l en e (fun r => match r with None => Done OErr | Some a =>
-        Do (fun h => (h, Done (OList (firstn j (icontent h a))))) end)
+        Do (fun h => (h, Done (pull j (icontent h a)))) end)
   end.
 
 (* ------------------------------------------------------------------ one generator, many functions, a history *)
@@ -297,15 +316,16 @@ Fixpoint sp_l (se : senv) (e : lexp) : option (list Z) :=
   | LSingle z => match sp_z se z with None => None | Some v => Some [v] end
   | LNumbers n => Some (map Z.of_nat (seq 0 (Z.to_nat (sp_s se n))))
   | LAppend l x => match sp_l se l with None => None | Some xs =>
-                     match sp_z se x with None => None | Some v => Some (xs ++ [v]) end end
+                     match sp_z se x with None => None | Some v => if poisoned xs then None else Some (xs ++ [v]) end end
   | LMap k l => match sp_l se l with None => None | Some xs => Some (map (Z.add (sp_s se k)) xs) end
   | LAccept k l => match sp_l se l with None => None | Some xs => Some (filter (fun e => Z.ltb e (sp_s se k)) xs) end
   | LTop n l => match sp_l se l with None => None | Some xs => Some (sp_top (sp_s se n) xs) end
   | LSkip n l => match sp_l se l with None => None | Some xs => Some (skipn (Z.to_nat (sp_s se n)) xs) end
   | LConcat a b => match sp_l se a with None => None | Some xs =>
                      match sp_l se b with None => None | Some ys => Some (xs ++ ys) end end
-  | LReverse l => match sp_l se l with None => None | Some xs => Some (rev xs) end
-  | LForce l => sp_l se l
+  | LReverse l => match sp_l se l with None => None | Some xs => if poisoned xs then None else Some (rev xs) end
+  | LForce l => match sp_l se l with None => None | Some xs => if poisoned xs then None else Some xs end
+  | LGuard v l => match sp_l se l with None => None | Some xs => Some (map (guard_elem (sp_s se v)) xs) end
   end
 with sp_z (se : senv) (e : zexp) : option Z :=
   match e with
@@ -314,10 +334,10 @@ with sp_z (se : senv) (e : zexp) : option Z :=
   | ZMul a b => match sp_z se a with None => None | Some x => match sp_z se b with None => None | Some y => Some (x * y)%Z end end
   | ZIndex l i => match sp_z se i with None => None | Some iv =>
                     match sp_l se l with None => None | Some xs =>
-                      if (iv <? 0)%Z then None else nth_error xs (Z.to_nat iv) end end
-  | ZSize l => match sp_l se l with None => None | Some xs => Some (Z.of_nat (length xs)) end
-  | ZSum l => match sp_l se l with None => None | Some xs => sum_list xs end
-  | ZFirst l => match sp_l se l with None => None | Some xs => hd_error xs end
+                      if (iv <? 0)%Z then None else if poisoned xs then None else nth_error xs (Z.to_nat iv) end end
+  | ZSize l => match sp_l se l with None => None | Some xs => if poisoned xs then None else Some (Z.of_nat (length xs)) end
+  | ZSum l => match sp_l se l with None => None | Some xs => sum_ok xs end
+  | ZFirst l => match sp_l se l with None => None | Some xs => first_ok xs end
   | ZThrow => None
   | ZTry a b => match sp_z se a with Some v => Some v | None => sp_z se b end
   | ZIfLt a b t e => match sp_z se a with None => None | Some x =>
@@ -328,7 +348,7 @@ with sp_z (se : senv) (e : zexp) : option Z :=
 Definition sp_body (se : senv) (b : body) (j : nat) : outcome :=
   match b with
   | BZ e => match sp_z se e with None => OErr | Some v => OInt v end
-  | BL e => match sp_l se e with None => OErr | Some xs => OList (firstn j xs) end
+  | BL e => match sp_l se e with None => OErr | Some xs => pull j xs end
   end.
 
 (* the constants of a program, as values *)
@@ -336,7 +356,8 @@ Fixpoint sp_defs (ds : list def) (cv : list (list Z)) (zs : list Z) : option (li
   match ds with
   | [] => Some (cv, zs)
   | DL e :: r => match sp_l (mkSE cv zs []) e with None => None | Some xs => sp_defs r (cv ++ [xs]) zs end
-  | DS i :: r => match nth_error cv i with None => None | Some xs => sp_defs r cv (zs ++ [Z.of_nat (length xs)]) end
+  | DS i :: r => match nth_error cv i with None => None | Some xs =>
+                   if poisoned xs then None else sp_defs r cv (zs ++ [Z.of_nat (length xs)]) end
   end.
 
 (* THE SPECIFICATION: the outcome of evaluating program p with args, consuming j elements - a function of
